@@ -147,7 +147,7 @@ func (h *DNSHandler) sendMDNS(buf []byte, srcAddr packet.Addr, dstAddr packet.Ad
 		if ether, err = ether.SetPayload(ip4); err != nil {
 			return err
 		}
-		if _, err := h.session.Conn.WriteTo(ether, &dstAddr); err != nil {
+		if _, err = h.session.Conn.WriteTo(ether, &dstAddr); err != nil {
 			LoggerMDNS.Msg("failed to write").Error(err).Write()
 		}
 		return err
@@ -174,10 +174,10 @@ func (h *DNSHandler) sendMDNS(buf []byte, srcAddr packet.Addr, dstAddr packet.Ad
 	} else {
 		udp[6], udp[7] = byte(cs), byte(cs>>8)
 	}
-	if _, err := h.session.Conn.WriteTo(ether, &dstAddr); err != nil {
+	if _, err = h.session.Conn.WriteTo(ether, &dstAddr); err != nil {
 		LoggerMDNS.Msg("failed to write").Error(err).Write()
 	}
-	return nil
+	return err
 }
 
 func (h *DNSHandler) SendSleepProxyResponse(srcAddr packet.Addr, dstAddr packet.Addr, id uint16, name string) (err error) {
